@@ -60,10 +60,10 @@ func Main() {
 	defer func() {
 		if r := recover(); r != nil {
 			if _, ok := r.(assumeFailed); ok {
-				fmt.Println("ASSUME-FAILED")
+				fmt.Println("\nASSUME-FAILED")
 				os.Exit(0)
 			}
-			fmt.Printf("PANIC %v\n", r)
+			fmt.Printf("\nPANIC %v\n", r)
 			fmt.Println(string(debug.Stack()))
 			os.Exit(0)
 		}
@@ -72,7 +72,7 @@ func Main() {
 	for _, d := range tempDirs {
 		os.RemoveAll(d)
 	}
-	fmt.Println("DONE")
+	fmt.Println("\nDONE")
 }
 
 func val(tag string) (string, bool) { v, ok := rf.Values[tag]; return v, ok }
@@ -141,9 +141,10 @@ func Assume(ok bool) {
 }
 
 func Assert(id string, ok bool) {
-	fmt.Println("REACHED", id)
+	// the code under test may have printed without a trailing newline
+	fmt.Println("\nREACHED", id)
 	if !ok {
-		fmt.Println("ASSERT-FAILED", id)
+		fmt.Println("\nASSERT-FAILED", id)
 	}
 }
 
@@ -316,6 +317,18 @@ func MaybeNilIf[T any](isNil bool, p *T) *T {
 		return nil
 	}
 	return p
+}
+
+// SplitCSV reads CSV text with the standard reader (blank lines, as encoding/csv does, are skipped).
+func SplitCSV(b []byte) [][]string {
+	r := csv.NewReader(bytes.NewReader(b))
+	r.FieldsPerRecord = -1
+	rows, err := r.ReadAll()
+	if err != nil {
+		fmt.Println("\nASSERT-FAILED csv.parse", err)
+		return nil
+	}
+	return rows
 }
 
 func P[X any](v X) *X { return &v }
